@@ -17,7 +17,8 @@ CFGS = [("csv", "auto"), ("csv", "noauto"), ("mem", "auto"), ("mem", "noauto")]
 # csv.QUOTE_ALL = 1, QUOTE_NONNUMERIC = 2 (JSON-friendly)
 DIALECTS = [{"delimiter": ";"}, {"delimiter": "\t"}, {"quotechar": "'"}, {"quoting": 1},
             {"delimiter": "|", "quotechar": "'"}, {"doublequote": False, "escapechar": "\\"},
-            {"flush_on_insert": False}, {"flush_on_insert": False, "delimiter": ";"}]
+            {"flush_on_insert": False}, {"flush_on_insert": False, "delimiter": ";"},
+            {"access_mode": "w+"}]
 
 
 def probes():
@@ -226,9 +227,12 @@ class Family:
                 bulk = g.r.randint(9, 48)     # beyond the sizes at which small-set / small-dict behaviour ends
             elif (i // 4) % 500 == 77:
                 bulk = g.r.randint(520, 1100)  # beyond batch / bulk-path thresholds
+            ops = gen_history(g, ln, st == "csv", w, 0.08 if self.prop == "C11" else 0.03, bulk)
+            if csvkw and csvkw.get("access_mode") == "w+":
+                # opening in "w+" truncates by the user's choice: close-and-reopen is not a no-op there
+                ops = [o for o in ops if D.op_name(o) != "reopen"]
             cases.append({"cfg": ["cfg", st, au], **({"enc": enc} if enc else {}),
-                          **({"csvkw": csvkw} if csvkw else {}),
-                          "ops": gen_history(g, ln, st == "csv", w, 0.08 if self.prop == "C11" else 0.03, bulk)})
+                          **({"csvkw": csvkw} if csvkw else {}), "ops": ops})
         return cases
 
     def enumerated(self, depth):
